@@ -2,7 +2,7 @@
 # usage: tools_with_patch.sh [-R] <patch file | commit> <check ids...>
 # applies a patch (or the reverse of a /repo commit with -R) to /repo's working tree, runs the quick checks, restores /repo
 rev=""; if [ "$1" = "-R" ]; then rev="-R"; shift; fi
-src="$1"; shift
+src="$1"; shift; case "$src" in /*) ;; *) [ -f "/verif/$src" ] && src="/verif/$src";; esac
 cd /repo || exit 9
 if [ -n "$(git status --porcelain --untracked-files=no)" ]; then echo "/repo not clean"; exit 9; fi
 if [ -f "$src" ]; then git apply $rev "$src" || exit 9; else git show "$src" | git apply $rev || exit 9; fi
